@@ -434,12 +434,14 @@ func fatalClass(stderr string) string {
 }
 
 // crashingStack returns the part of a Go crash dump that belongs to the first goroutine.
+var goroutineRe = regexp.MustCompile(`(?m)^goroutine \d+`)
+
 func crashingStack(s string) string {
-	i := strings.Index(s, "goroutine ")
-	if i < 0 {
+	loc := goroutineRe.FindStringIndex(s)
+	if loc == nil {
 		return s
 	}
-	s = s[i:]
+	s = s[loc[0]:]
 	if j := strings.Index(s[1:], "\ngoroutine "); j > 0 {
 		s = s[:j+1]
 	}
